@@ -6,6 +6,6 @@ for P in "$@"; do
     [ -f "$m" ] || continue
     t0=$(date +%s)
     out=$(tools/mutant_test.sh $P $m 2>&1 | tail -1)
-    echo -e "$(date +%H:%M)\t$P\t$(basename $m .diff)\t$out\t$(( $(date +%s) - t0 ))s" >> mutants/RESULTS.tsv
+    echo -e "$(date +%H:%M)\t$P\t$(basename $m .diff)\t$out\t$(( $(date +%s) - t0 ))s" >> ${RESULTS:-mutants/RESULTS.tsv}
   done
 done
